@@ -20,7 +20,10 @@ type Outcome struct {
 	NamedItem int // registry index of the item named by the error, -1: none
 	Sim       simctl.Result
 	Calls     []Call
-	Observed  map[int]map[int]Cell
+	// CallsAtReturn is the number of runner calls completed when the workflow
+	// returned (-1: not observed, e.g. race monitor)
+	CallsAtReturn int
+	Observed      map[int]map[int]Cell
 	Matrix    [][]Cell
 	Src       SrcStats
 	Stream    *Stream
@@ -74,8 +77,15 @@ func NameItem(msg string) int {
 // StepBudget is the liveness bound in scheduler steps for a configuration:
 // ten times a generous estimate of the fault-free step count.
 func StepBudget(c *RunConfig) int {
+	pre := 0
+	for _, p := range c.Prelude {
+		pre += 2*p.NumByte + 2000
+		if p.Workflow != WSingle {
+			pre += 2000
+		}
+	}
 	if c.Workflow == WSingle {
-		return 10 * (200 + 2*c.NumByte)
+		return 10 * (5000 + 4*c.NumByte + pre)
 	}
 	wi := Info(c.Workflow)
 	perSample := 15 + 15 + 12
@@ -97,7 +107,7 @@ func StepBudget(c *RunConfig) int {
 		// scheduling point per Read from the instrumenter
 		est += reads
 	}
-	return 10 * est
+	return 10 * (est + pre)
 }
 
 // ExecutePlain runs one configuration with real goroutines and no controller:
@@ -110,7 +120,7 @@ func ExecutePlain(cfg *RunConfig, timeout time.Duration) *Outcome {
 	rs := NewRunState(cfg, st, false)
 	setCurrent(rs)
 	defer setCurrent(nil)
-	out := &Outcome{Cfg: cfg, NamedItem: -1, Stream: st}
+	out := &Outcome{Cfg: cfg, NamedItem: -1, Stream: st, CallsAtReturn: -1}
 	done := make(chan struct{})
 	var v bool
 	var err error
@@ -149,7 +159,7 @@ func Execute(t *testing.T, cfg *RunConfig) *Outcome {
 	rs := NewRunState(cfg, st, true)
 	setCurrent(rs)
 	defer setCurrent(nil)
-	out := &Outcome{Cfg: cfg, NamedItem: -1, Stream: st}
+	out := &Outcome{Cfg: cfg, NamedItem: -1, Stream: st, CallsAtReturn: -1}
 	body := func() {
 		for _, pre := range cfg.Prelude {
 			pc := RunConfig{Workflow: pre.Workflow, NumByte: pre.NumByte, Stream: pre.Stream, Chunk: ChunkSpec{Kind: "full"}, Fault: FaultSpec{Kind: "none"}}
@@ -168,6 +178,11 @@ func Execute(t *testing.T, cfg *RunConfig) *Outcome {
 		out.Returned = true
 	}
 	opt := simctl.Options{
+		OnMainReturn: func(int) {
+			rs.mu.Lock()
+			out.CallsAtReturn = len(rs.Calls)
+			rs.mu.Unlock()
+		},
 		NumCPU:    cfg.Workers,
 		Policy:    cfg.Policy,
 		Picks:     cfg.Picks,
